@@ -109,6 +109,25 @@ CLAIMS = {
         "technique": "effect / alias analysis relative to each entry, two-call history analysis, length-class "
                      "(equivariance) typing",
     },
+    "C12": {
+        "text": "Decides: the mono-energetic column is full(N, configured log-energy) with no other dependence; every "
+                "index-dependent division in the three spectrum helpers is dominated by a guard excluding index == 1; "
+                "spec_norm x sum_spec_weights == 1 as a polynomial identity for every variant and guard branch; the "
+                "uniform variate is on [0, 1(+1 ulp)] with one draw per event; the closed forms of the statement "
+                "(general and index-1 branches) modulo algebra. It does NOT decide rounding at the upper bound or "
+                "distributional exactness beyond the closed form.",
+        "technique": "value-flow graph with path merging + guard dominance over merge conditions, polynomial normal "
+                     "form, interval analysis",
+    },
+    "C13": {
+        "text": "Decides: mask composition thrown -> horizon -> volume by length-class typing (every mask indexes its "
+                "own population; all returned columns have the final one); horizon and volume predicates incl. the "
+                "min(42 deg, limb-limited) limit in radians; the dark-sky truth table over its three comparison atoms, "
+                "each tied to the right body, radians and configured threshold; optical-only / remove-only / at kept "
+                "event times; the time grid arange(N)/N x duration in seconds added to the event time; the three "
+                "triangle relations modulo algebra. It does NOT decide astropy's transforms or ephemerides.",
+        "technique": "value-flow graph + length-class typing, truth-table predicates, polynomial normal form, unit inference",
+    },
 }
 
 NOT_APPLICABLE = {
